@@ -48,7 +48,8 @@ def script_of(events):
 
 
 def mask(line):
-    return re.sub(r'^\s*-?\d+\.\d{4} ', 'T ', sut.strip_sgr(line))
+    line = re.sub(r'^\s*-?\d+\.\d{4} ', 'T ', sut.strip_sgr(line))
+    return re.sub(r' after -?\d+\.\d{4}s', ' after Ns', line)     # GDB mode uses the wall clock
 
 
 def keep(line):
